@@ -52,6 +52,10 @@ var plainText = map[string]string{"p1": "a,b", "p2": "a%2Cb", "p3": "a+b (:)'"} 
 var partText = plainText
 
 // two key parts (same n) whose generated ComputeComplexKeyHash values are equal, found by search
+var boundaryText = map[string]string{"p1": "", "p2": "''", "p3": "x"}
+var strictNow = true
+var rowN int
+
 var collidingText = map[string]string{"p3": "a+b (:)'"}
 var collidingFound = func() bool {
 	seen := map[any]string{}
@@ -174,6 +178,7 @@ func runC16(file string, stats map[string]int) {
 	bu, _ := url.Parse("http://host.example")
 	for sc.Scan() {
 		var row c16Row
+		rowN++
 		if err := json.Unmarshal(sc.Bytes(), &row); err != nil {
 			panic(err)
 		}
@@ -224,7 +229,7 @@ func runC16(file string, stats map[string]int) {
 			enc  func(wireKey) string
 		}
 		rc := func(tr *cannedTransport) *restli.Client {
-			return &restli.Client{Client: &http.Client{Transport: tr}, HostnameResolver: &restli.SimpleHostnameResolver{Hostname: bu}, StrictResponseDeserialization: true}
+			return &restli.Client{Client: &http.Client{Transport: tr}, HostnameResolver: &restli.SimpleHostnameResolver{Hostname: bu}, StrictResponseDeserialization: strictNow}
 		}
 		runners := []runner{
 			{"collCK", func(tr *cannedTransport) (map[any]int, map[any]int, map[any]int, []any, error) {
@@ -306,7 +311,12 @@ func runC16(file string, stats map[string]int) {
 				return r, e, s, ids, nil
 			}, func(w wireKey) string { return refEscape(partText[w.Part], w.Alt) }},
 		}
-		for pass := 0; pass < 2; pass++ {
+		for pass := 0; pass < 3; pass++ {
+			if pass == 2 {
+				// and with the two boundary texts that the ROR2 empty-string sentinel could confuse: the empty string and
+				// the string of two apostrophes
+				partText = boundaryText
+			}
 			if pass == 1 {
 				// once more with key parts whose GENERATED hashes really collide (p1 and p2 share a hash bucket in the
 				// generated key set): equality, not the hash, must tell them apart
@@ -323,6 +333,10 @@ func runC16(file string, stats map[string]int) {
 					}
 					label += "-colliding-hashes"
 				}
+				if pass == 2 {
+					label += "-empty-and-quotes"
+				}
+				strictNow = (rowN+pass)%2 == 0 // lenient and strict clients alternate: correlation errors are not decoding leniency
 				// string keys have no params: behaviours that differ only in params collapse; skip those whose
 				// requested list would contain equal strings only through params
 				tr := &cannedTransport{}
@@ -369,7 +383,7 @@ func runC16(file string, stats map[string]int) {
 					} else {
 						enc = partText[k.Part]
 					}
-					if n := strings.Count(q, enc); n != 1 && rn.name != "collStr" {
+					if n := strings.Count(q, enc); n != 1 && rn.name != "collStr" && pass != 2 {
 						violation("C16/"+label+"/id-not-sent-once", fmt.Sprintf("key part %q occurs %d times in the ids parameter %q", partText[k.Part], n, q), rcs)
 					}
 				}
